@@ -117,6 +117,8 @@ impl BlockFilter {
             let header = snapshot
                 .get_block_header(&block_hash)
                 .expect("header stored");
+            #[cfg(ckb_verif)]
+            verif::yield_point(block_number);
             self.build_filter_data_for_block(&header);
         }
     }
@@ -169,5 +171,24 @@ impl BlockFilter {
             filter_data.len(),
             transactions_size
         );
+    }
+}
+
+/// verification hook (off unless built with `--cfg ckb_verif`): a yield point between taking the snapshot and
+/// building each block, so that a harness can place a reorganisation exactly there
+#[cfg(ckb_verif)]
+pub mod verif {
+    use std::sync::{Arc, Mutex, OnceLock};
+    type Hook = Arc<dyn Fn(u64) + Send + Sync>;
+    static HOOK: OnceLock<Mutex<Option<Hook>>> = OnceLock::new();
+    /// install (or clear) the callback invoked with the block number before each block is built
+    pub fn set_yield(h: Option<Hook>) {
+        *HOOK.get_or_init(|| Mutex::new(None)).lock().unwrap() = h;
+    }
+    pub(crate) fn yield_point(n: u64) {
+        let h = HOOK.get_or_init(|| Mutex::new(None)).lock().unwrap().clone();
+        if let Some(h) = h {
+            h(n)
+        }
     }
 }
